@@ -236,6 +236,17 @@ def lean_sources(repo, pinned):
     return "[\n" + ",\n".join(f"  ({_s(nm)}, [" + ", ".join(_s(ln) for ln in function_lines(repo, rel, q)) + "])" for nm, rel, q in pinned) + "\n]"
 
 
+def changed_rows(repo, pinned, model_file):
+    """names of the pinned functions whose normalised source is NOT the row of the hand-written model literal"""
+    text = Path(model_file).read_text()
+    out = []
+    for nm, rel, q in pinned:
+        row = f"  ({_s(nm)}, [" + ", ".join(_s(ln) for ln in function_lines(repo, rel, q)) + "])"
+        if row not in text:
+            out.append(nm)
+    return out
+
+
 def _s(x):
     return '"' + str(x).replace("\\", "\\\\").replace('"', "'") + '"'
 
